@@ -430,6 +430,10 @@ def run(facts, tier, ctx):
     eb.require_floor(1, "frame entry point")
     out.append(eb)
     out.append(rule_scan(facts))
+    # the block_size argument of the stream encoders is an API argument like any other: outside 16..=65535 it must give an
+    # error, whichever helper happens to enforce it (C04's rule; the argument is not taken from the verified config)
+    from . import c04
+    out += [r for r in c04.run(facts, tier, ctx) if r.rule == "RANGE/block-size-argument"]
     return out
 
 
